@@ -58,6 +58,13 @@ func genC19(t *rapid.T) c19Case {
 		name := fmt.Sprintf("h%d-%s", i, k)
 		if k == "hidden" {
 			name = "." + name
+		} else {
+			// names that sort before, between and after the hidden ones, in byte order and in directory order
+			pre := rapid.SampledFrom([]string{"", "", "", "+", "-", "#", ",", "~", "=", "A", "_", "zz", "%"}).Draw(t, "nameprefix")
+			if pre != "" {
+				name = pre + name
+				vlib.Class("hook-name-with-prefix-byte-" + map[bool]string{true: "below", false: "above"}[pre[0] < '.'] + "-the-dot")
+			}
 		}
 		c.Entries = append(c.Entries, hookEntry{Name: name, Kind: k})
 	}
